@@ -1,51 +1,90 @@
 PROPERTY = "C09"
 LEVEL = "proof"
-LEAN_MODULES = ["CifModel.Props.C09", "CifModel.Lemmas.NamesLink", "CifModel.Props.ReviewC09"]
+LEAN_MODULES = ["CifModel.Props.C09", "CifModel.Props.C09Buf", "CifModel.Props.C09Api", "CifModel.Props.C09Store", "CifModel.Lemmas.NamesLink", "CifModel.Props.ReviewC09"]
 REQUIRED = ["CifModel.C09_idempotent", "CifModel.C09_canon_invariant", "CifModel.C09_normal_form_is_caseless_match",
             "CifModel.C09_norm_of_valid", "CifModel.C09_match_iff", "CifModel.C09_invalid_refused",
             "CifModel.C09_table_keys", "CifModel.C09_table_enumeration", "CifModel.C09_packet_names", "CifModel.C09_map_invariant",
             "CifModel.C09_code_table", "CifModel.C09_table_keys_case_significant", "CifModel.C09_validity",
             "CifModel.Lemmas.NamesLink.limits_link", "CifModel.Lemmas.NamesLink.spec_limits_link",
-            "CifModel.Lemmas.NamesLink.consts_link", "CifModel.Lemmas.NamesLink.bmpDisallowed_link"]
+            "CifModel.Lemmas.NamesLink.consts_link", "CifModel.Lemmas.NamesLink.bmpDisallowed_link",
+            "CifModel.C09_normalize_buffer_refines", "CifModel.C09_unicode_normalize_buffer", "CifModel.C09_fold_case_buffer",
+            "CifModel.C09_normalize_buffer_cstring", "CifModel.C09_normalize_entry_buffer_refines",
+            "CifModel.C09_entry_points", "CifModel.C09_store_block_match", "CifModel.C09_table_survives_store",
+            "CifModel.C09_store_frame_match", "CifModel.C09_store_item_match"]
 GEN = ["ErrCodes", "NamesConsts"]
 FAMILIES = ["valid", "norm"]
 TRUSTED_BASE = [
     "Lean 4.33.0 kernel; axioms propext, Classical.choice, Quot.sound only",
-    "ICU (unorm_normalize NFD/NFC, u_strFoldCase) is a PARAMETER of the model (structure UnicodeOps); what the theorems assume of "
-    "it is the hypothesis structure Laws (nfd_nfc, nfc_nfd, fold_stable), tested against the real ICU on every input of family norm",
-    "harness/x_norm.c (assembles NFC(foldCase(NFD x)) from unorm2 / u_strFoldCase, independent of the library), harness/x_valid.c, "
+    "ICU (unorm_normalize NFD/NFC, u_strFoldCase) is a PARAMETER of the model at two levels: as string functions (structure UnicodeOps; "
+    "assumed: the hypothesis structure Laws - nfd_nfc, nfc_nfd, fold_stable) and as calls with a destination capacity (structure "
+    "IcuOps; assumed: the hypothesis structure CallContract / Contract - result + NUL and U_ZERO_ERROR when it fits with room, result "
+    "and U_STRING_NOT_TERMINATED_WARNING when it fits exactly, needed length and U_BUFFER_OVERFLOW_ERROR otherwise, nothing written at "
+    "or behind dest[capacity]).  Both are tested against the real ICU by family norm: the laws on every input of `norm cp`, the "
+    "capacity contract by `norm icu` with every capacity 0 .. length+2 and a guarded destination",
+    "harness/x_norm.c (assembles NFC(foldCase(NFD x)) from unorm2 / u_strFoldCase, independent of the library; compiles utils.c INTO "
+    "the executor with malloc / realloc / free and the two ICU entry points interposed, blocks guarded by sentinels), harness/x_valid.c, "
     "tools/gen/norm.py, tools/gen/valid.py (oracles restating the property on the implementation's observations)",
-    "hand-written models Model/Names.lean, Model/Normalize.lean, tied to src/utils.c and src/map.c by the families valid and norm, and "
+    "hand-written models Model/Names.lean, Model/Normalize.lean, Model/NormalizeBuf.lean, tied to src/utils.c and src/map.c by the "
+    "families valid and norm (norm buf: the file-static cif_unicode_normalize / cif_fold_case and cif_normalize / cif_normalize_name / "
+    "_item_name / _table_index under every source-length convention), and "
     "by tools/translate_names.py: CIF_LINE_LENGTH, the code/item reserve of cif_is_valid_name, the whitespace bound, surrogate ranges, "
     "non-character masks and the BMP test of cif_has_disallowed_chars are re-extracted on every run (Gen/NamesConsts.lean) and linked to "
     "the model by Lemmas/NamesLink.lean (the translated character test compared on all 65 536 units by kernel evaluation)",
-    "SQLite's uniqueness of the normalised name columns is modelled as a list of present normal forms (createNamed / findNamed); "
-    "observed through the API by `norm match`",
+    "the entry-point models of other groups (Model/Store.lean, Model/Value.lean) in C09_entry_points / C09_store_block_match / C09_code_table",
+    "SQLite's uniqueness of the normalised name columns is modelled as a list of present normal forms (createNamed / findNamed) and, for "
+    "blocks, by the store model's data_block rows; observed through the API by `norm match`",
 ]
 ASSUMPTIONS = [
-    "Laws U: NFD(NFC x) = NFD x; NFC(NFD x) = NFC x; NFD(fold(NFD(fold(NFD x)))) = NFD(fold(NFD x)) — hypotheses of C09_idempotent and "
+    "Laws U: NFD(NFC x) = NFD x; NFC(NFD x) = NFC x; NFD(fold(NFD(fold(NFD x)))) = NFD(fold(NFD x)) - hypotheses of C09_idempotent and "
     "C09_normal_form_is_caseless_match, tested against ICU 72 on all code points (thorough) and seeded sequences",
-    "ICU calls do not fail (allocation / internal errors are not modelled)",
-    "strings are NUL-free lists of UTF-16 code units",
+    "Contract U I (buffer level): each ICU entry point follows the capacity convention for the string function it computes - hypothesis "
+    "of C09_normalize_buffer_refines and the other *_buffer theorems, tested against ICU (norm icu); ICU calls do not fail otherwise and "
+    "malloc / realloc do not fail (the C's branches for those cases are modelled - IcuStatus.failure - or belong to C17)",
+    "source-length convention inside the source block (explicit length <= block, or < 0 with a terminator present): cif.h states it as a "
+    "precondition; outside it the model answers Err.oobRead (stated in the theorems), the C reads out of bounds",
+    "int32_t arithmetic of `src_chars + 1` / `normalized_chars + 1` does not overflow (strings shorter than 2^31 - 1 units)",
+    "strings are NUL-free lists of UTF-16 code units where the caller reads a C string (C09_normalize_buffer_cstring, C09_entry_points "
+    "part A: normal form NUL-free); the buffer-level theorems themselves allow embedded NULs under explicit lengths",
 ]
 PARTIAL = [
     "the theorems about tables and packets are about the map of map.c at association-list level (Model/Normalize.lean `Entries`, tied by "
-    "family `norm map`); that uthash enumerates in insertion order, and key / key_orig memory ownership, are correspondence-only "
+    "family `norm map`, which also sends every table through a managed CIF - set_value / get_value, loop packet / packet iterator - and "
+    "probes the READ-BACK table: C09_table_survives_store, from C07's serialisation round trip; a packet delivered by a packet iterator "
+    "carries its NORMALISED names as spellings - modelled, no property fixes that spelling); that uthash enumerates in insertion order, and key / key_orig memory ownership, are correspondence-only "
     "(families norm, val; C16 / C19 for the heap level)",
-    "C09_code_table is stated against the entry-point models of other groups (Model/Store.lean, Model/Value.lean): that the real entry "
-    "points compute the validity verdict with cif_is_valid_name / cif_has_disallowed_chars (i.e. `apiName`, `itemNorm`, `tableNorm` are what "
-    "the C passes on) is observed by family `valid api` (create block / frame / item / loop / packet / packet item / table key), not proved",
-    "found / duplicate for blocks, frames and items is proved on the list of present normal forms (`createNamed` / `findNamed`: SQL "
-    "uniqueness of the normalised name column); its composition with the store model's histories is property C04's",
-    "ICU itself: `Laws` are hypotheses (tested on all code points); byte-level behaviour of unorm_normalize / u_strFoldCase buffers "
-    "(U_BUFFER_OVERFLOW_ERROR retry loops of cif_unicode_normalize / cif_fold_case) is not modelled - correspondence only",
+    "C09_entry_points instantiates the name parameter of the entry-point models of other groups (Model/Store.lean create_block / "
+    "create_frame / create_loop / set_value / add_item, Model/Value.lean table set / packet set / packet create) with the C09 models down to "
+    "buffer level and proves verdict = CIF rules and stored key = cif_normalize (NFC for table keys) of the caller's string; that the REAL "
+    "entry points make exactly that call (cif_normalize_name(code, -1, &buf, CIF_INVALID_BLOCKCODE) before anything else, etc.) is part of "
+    "those entry-point models' own tie (families `valid api`, `store`, `val`), not proved; for set_value / add_item only the verdict and "
+    "the identity with the call on the normalised record are stated here - the rows they store are C04's refinement",
+    "found / duplicate: C09_match_iff on the list of present normal forms; C09_store_block_match / C09_store_frame_match / "
+    "C09_store_item_match compose it with the store model for ONE creation followed by look-up / re-creation, from any store state whose "
+    "keys are the normal forms of their spellings (invariant shown preserved by the three creating calls; the id-sequence facts the DUP "
+    "direction needs are hypotheses that C04's invariant provides); items are stated on the loop_item row test (hasItem) that "
+    "get_value / get_item_loop / the DUP check consult; set_value / add_item / remove and whole histories are property C04's",
+    "ICU itself: `Laws` and `Contract` are hypotheses (tested against ICU on all code points resp. all capacities 0 .. length+2 of "
+    "seeded strings), not proved; allocation failure inside the retry loops (`while (buf)`, the unchecked malloc after an overflow) is "
+    "property C17's fault-injection census, not modelled here",
+    "the trace of allocator / ICU calls of the buffer-level model (first-buffer capacity src_chars + 1, retry capacity needed + 1, realloc "
+    "for the terminator) is proved about the model and checked for safety on the implementation's own trace by the `norm buf` oracle, but "
+    "deliberately NOT compared between model and implementation (no property fixes capacities: a different first guess is harmless); the "
+    "theorems hold for EVERY first-buffer capacity (`guess`)",
 ]
 LEVEL_TEXT = ("Proof relative to stated ICU laws: cif_normalize idempotent and invariant under canonical equivalence, equal normal "
               "forms = Unicode canonical caseless match, found/duplicate iff normal forms coincide, invalid names refused with the "
-              "entry point's code, table keys matched by NFC only — for all UnicodeOps satisfying Laws; validity = the CIF rules on code points for EVERY string of 16-bit units "
-              "(surrogate pairs, unpaired surrogates, supplementary non-characters, limits 2048 / 2043). Model tied to the code by differential execution (valid: every BMP unit, every disallowed "
+              "entry point's code, table keys matched by NFC only - for all UnicodeOps satisfying Laws; validity = the CIF rules on code points for EVERY string of 16-bit units "
+              "(surrogate pairs, unpaired surrogates, supplementary non-characters, limits 2048 / 2043). Buffer level (C09_normalize_buffer_refines, "
+              "relative to ICU's capacity contract): for every input, source-length convention inside the block, first-buffer capacity and fuel >= 2, "
+              "cif_unicode_normalize / cif_fold_case / cif_normalize return exactly the string-level result (+ terminator where promised) in at most "
+              "two ICU calls per stage, never store outside a block they allocated, never read outside a source, free every intermediate block; the "
+              "three cif_normalize_* entry points refine the string-level normalisers; C09_entry_points: the name parameter of every name-taking "
+              "entry-point model is what these functions compute, verdict = CIF rules, stored key = normal form of the caller's string. "
+              "Model tied to the code by differential execution (valid: every BMP unit, every disallowed "
               "class at every position, length limits, API codes; norm: cif_normalize vs ICU primitives on all interesting code points / "
-              "all 1 114 112 in the thorough tier, sequences, API matching, table and packet keys), laws tested against ICU.")
-LEVEL_NOTE = ("Trusted: Lean kernel; hand-written models + correspondence + link theorems over regenerated constants; the ICU laws "
-              "(tested against ICU, not proved). No _partial theorem.")
-TECHNIQUE = "Lean 4 proof about an executable model parameterised by ICU + differential execution against the real code and against ICU primitives"
+              "all 1 114 112 in the thorough tier, sequences, API matching, table and packet keys; norm buf: utils.c with interposed allocator "
+              "and ICU calls; norm icu: the capacity contract), laws and contract tested against ICU.")
+LEVEL_NOTE = ("Trusted: Lean kernel; hand-written models + correspondence + link theorems over regenerated constants; the ICU laws and the ICU "
+              "capacity contract (tested against ICU, not proved). No _partial theorem; what stays correspondence-only is listed in PARTIAL "
+              "(uthash order / ownership, that the real entry points make the modelled calls, allocation failure).")
+TECHNIQUE = "Lean 4 proof about an executable model parameterised by ICU (string level and buffer level) + differential execution against the real code and against ICU primitives"
